@@ -456,7 +456,7 @@ func c20Budget(cs *c20Case) bool {
 	for k := range regs {
 		keys = append(keys, k)
 	}
-	const cap = 60000
+	const cap = 400000
 	type mk struct {
 		k string
 		d int
@@ -527,7 +527,7 @@ func c20Count(ns []Node) int {
 func (rn *c20Runner) runCase(out *vh.Out, cs *c20Case, withPrint bool, tag string) {
 	op := "C20 parse " + cs.opArgs()
 	if !c20Budget(cs) {
-		out.Stat("skipped=expansion-budget")
+		out.Stat("skipped=expansion-budget/" + tag)
 		return
 	}
 	rn.prepare(cs)
@@ -602,12 +602,76 @@ var c20EnvVals = []string{"example.org", "", "{env:H}", "{env:a$b}", "with space
 
 func c20GenCase(r *vh.Rng) (*c20Case, string) {
 	g := &vcfg.Gen{R: r, CRLF: r.Chance(10)}
+	switch x := r.Intn(100); {
+	case x < 45:
+		g.Chaos = 0
+	case x < 75:
+		g.Chaos = 1
+	default:
+		g.Chaos = 2
+	}
+	for _, s := range vcfg.SnipNames {
+		if r.Chance(30) {
+			g.Snips = append(g.Snips, s)
+		}
+	}
 	cs := &c20Case{}
+	// files of the configuration directory
+	cs.files = c20DirEntries()
+	if r.Chance(35) {
+		id := 1
+		addf := func(name, content string) {
+			cs.files = append(cs.files, c20File{name, id, []byte(content)})
+			id++
+		}
+		sub := func() string {
+			gg := &vcfg.Gen{R: r, CRLF: r.Chance(10), InDir: true, Chaos: g.Chaos}
+			if r.Chance(40) {
+				gg.Snips = []string{"sc"}
+			}
+			s := gg.Config()
+			if g.Chaos > 0 && r.Chance(30) {
+				s = gg.Mutate(s, 1+r.Intn(2))
+			}
+			return s
+		}
+		if r.Chance(70) {
+			addf("inc1", sub())
+			g.Files = append(g.Files, "inc1")
+		}
+		if r.Chance(60) {
+			addf("inc2.conf", sub())
+			g.Files = append(g.Files, "inc2", "inc2.conf")
+		}
+		if r.Chance(30) {
+			addf("inc3", sub())
+			addf("inc3.conf", sub())
+			g.Files = append(g.Files, "inc3")
+		}
+		if r.Chance(20) {
+			addf("selfinc", "x 1\nimport selfinc\n")
+			if g.Chaos > 0 {
+				g.Files = append(g.Files, "selfinc")
+			}
+		}
+		if r.Chance(40) {
+			last := g.Pick3("sb", "inc1", "muta")
+			addf("muta", "(sb) {\n from_muta\n}\n$(m2) = from muta\nimport mutb\n")
+			addf("mutb.conf", "y $(m2)\nimport "+last+"\n")
+			if g.Chaos > 0 || last == "sb" {
+				g.Files = append(g.Files, "muta")
+			}
+		}
+		if r.Chance(10) {
+			addf("inc4", "") // empty file
+			g.Files = append(g.Files, "inc4", ".")
+		}
+	}
 	tag := ""
 	switch x := r.Intn(100); {
-	case x < 40:
+	case x < 50:
 		cs.input = []byte(g.Config())
-		tag = "grammar"
+		tag = fmt.Sprintf("grammar/chaos%d", g.Chaos)
 	case x < 75:
 		cs.input = []byte(g.Mutate(g.Config(), 1+r.Intn(4)))
 		tag = "grammar+mutation"
@@ -628,6 +692,9 @@ func c20GenCase(r *vh.Rng) (*c20Case, string) {
 	default:
 		// depth through snippet expansion: main chain j with `import deep` at the bottom, snippet body chain k
 		j, k := r.Intn(258), r.Intn(256)
+		if r.Chance(50) {
+			j, k = 250+r.Intn(8), r.Intn(8)
+		}
 		inner := g.Pick3("leaf y", "import deep", "import sa")
 		var b strings.Builder
 		b.WriteString("(deep) {\n" + strings.Repeat("s {\n", k) + inner + "\n" + strings.Repeat("}\n", k) + "}\n")
@@ -642,44 +709,12 @@ func c20GenCase(r *vh.Rng) (*c20Case, string) {
 			cs.env = append(cs.env, [2]string{k, c20EnvVals[r.Intn(len(c20EnvVals))]})
 		}
 	}
-	// files of the configuration directory
-	if r.Chance(35) {
-		cs.files = append(cs.files, c20File{"", 90, nil}, c20File{".", 91, nil}, c20File{"..", 92, nil})
-		id := 1
-		addf := func(name, content string) {
-			cs.files = append(cs.files, c20File{name, id, []byte(content)})
-			id++
-		}
-		sub := func() string {
-			gg := &vcfg.Gen{R: r, CRLF: r.Chance(10), InDir: true}
-			s := gg.Config()
-			if r.Chance(30) {
-				s = gg.Mutate(s, 1+r.Intn(2))
-			}
-			return s
-		}
-		if r.Chance(70) {
-			addf("inc1", sub())
-		}
-		if r.Chance(60) {
-			addf("inc2.conf", sub())
-		}
-		if r.Chance(30) {
-			addf("inc3", sub())
-			addf("inc3.conf", sub())
-		}
-		if r.Chance(40) {
-			addf("selfinc", "x 1\nimport selfinc\n")
-		}
-		if r.Chance(40) {
-			addf("muta", "(sb) {\n from_muta\n}\n$(m2) = from muta\nimport mutb\n")
-			addf("mutb.conf", "y $(m2)\nimport "+g.Pick3("muta", "sb", "inc1")+"\n")
-		}
-		if r.Chance(10) {
-			addf("inc1", "") // empty file
-		}
-	}
 	return cs, tag
+}
+
+// the configuration directory itself is always reachable through "", "." and ".."
+func c20DirEntries() []c20File {
+	return []c20File{{"", 90, nil}, {".", 91, nil}, {"..", 92, nil}}
 }
 
 var c20Fixed = []string{
@@ -776,7 +811,7 @@ func TestVerifC20Parse(t *testing.T) {
 			out.Violation("C20/shipped-missing", "C20 shipped "+fn, err.Error())
 			continue
 		}
-		cs := &c20Case{input: b, env: [][2]string{{"MADDY_HOSTNAME", "mx.example.org"}, {"MADDY_DOMAIN", "example.org"}}}
+		cs := &c20Case{input: b, env: [][2]string{{"MADDY_HOSTNAME", "mx.example.org"}, {"MADDY_DOMAIN", "example.org"}}, files: c20DirEntries()}
 		rn.prepare(cs)
 		res := rn.read(b)
 		if res.err != nil || res.panicked != nil || res.timeout {
@@ -790,7 +825,7 @@ func TestVerifC20Parse(t *testing.T) {
 
 	for _, s := range c20Fixed {
 		for _, env := range [][][2]string{nil, {{"H", "example.org"}, {"a$b", "v"}}} {
-			rn.runCase(out, &c20Case{input: []byte(s), env: env}, true, "fixed")
+			rn.runCase(out, &c20Case{input: []byte(s), env: env, files: c20DirEntries()}, true, "fixed")
 		}
 	}
 
